@@ -33,3 +33,60 @@ Example C08_example :
                       (view_init [112;32;99;110;102;32;49;32;49;10;49;32;120;32;48;10] None)
     = ADone (Some (Some {| h_vars := 1; h_clauses := 1; h_extra := 0 |}), [], FErr (ESyntax 2 3), lr') v'.
 Proof. do 2 eexists. vm_compute. reflexivity. Qed.
+
+(* ------------------------------------------------------------------ *)
+(* The DIMACS family and solver logs, end to end (Hoare.v, CnfSafe.v): the location of every syntax error of every
+   admissible run.  loc_ok S l c: there are a line start ls and a position pos with ls <= pos <= |S|, no LF in
+   S[ls, pos), c = pos - ls + 1, and ls / l are a genuine line start and its number: ls = 0 or S[ls-1] = LF, and
+   l = 1 + number of LF bytes before ls.  One documented exception (second disjunct of line_ok): when the last line
+   of the input is a comment (or a skipped log line) that ends with the input instead of an LF, the parser counts it
+   as a terminated line, so an error at the end of the input is reported as (lines + 1, column 1).  Both cases are
+   within the bounds the property states. *)
+From Flussab Require Import Hoare CnfSafe.
+
+Theorem C08_dimacs_error_location : forall fuel k maxd ignore_header S fail hdr items l c lr' v',
+  Forall (fun b => b < 256) S -> nlen S < 2 ^ 62 -> (length S < fuel)%nat ->
+  aruns (parse_dimacs fuel k maxd ignore_header lrs_init) (view_init S fail) (ADone (hdr, items, FErr (ESyntax l c), lr') v') ->
+  loc_ok S l c.
+Proof. exact parse_dimacs_error_location. Qed.
+Print Assumptions C08_dimacs_error_location.
+
+Theorem C08_log_error_location : forall fuel maxd ignore_unknown S fail l c lr' v',
+  Forall (fun b => b < 256) S -> nlen S < 2 ^ 62 -> (length S < fuel)%nat ->
+  aruns (parse_log fuel maxd ignore_unknown lrs_init) (view_init S fail) (ADone (Err (ESyntax l c), lr') v') ->
+  loc_ok S l c.
+Proof. exact parse_log_error_location. Qed.
+Print Assumptions C08_log_error_location.
+
+(* what loc_ok means, spelled out *)
+Theorem C08_loc_ok_unfolded : forall S l c,
+  loc_ok S l c <->
+  exists ls pos, ls <= pos /\ pos <= nlen S /\ (forall i, ls <= i -> i < pos -> nnth S i <> Some 10) /\
+    (((ls = 0 \/ nnth S (ls - 1) = Some 10) /\ l = 1 + count_lf (nfirstn ls S)) \/
+     (ls = nlen S /\ 0 < ls /\ nnth S (ls - 1) <> Some 10 /\ l = 2 + count_lf S)) /\
+    c = pos - ls + 1.
+Proof. intros S l c. reflexivity. Qed.
+Print Assumptions C08_loc_ok_unfolded.
+
+(* ... as a function of the position (line_col_of walks the input counting LF bytes), and the bounds of the property *)
+Theorem C08_dimacs_error_location_spec : forall fuel k maxd ignore_header S fail hdr items l c lr' v',
+  Forall (fun b => b < 256) S -> nlen S < 2 ^ 62 -> (length S < fuel)%nat ->
+  aruns (parse_dimacs fuel k maxd ignore_header lrs_init) (view_init S fail) (ADone (hdr, items, FErr (ESyntax l c), lr') v') ->
+  loc_spec S l c /\ 1 <= l <= count_lf S + 2 /\ 1 <= c <= nlen S + 1.
+Proof. exact parse_dimacs_error_location_spec. Qed.
+Print Assumptions C08_dimacs_error_location_spec.
+
+Theorem C08_log_error_location_spec : forall fuel maxd ignore_unknown S fail l c lr' v',
+  Forall (fun b => b < 256) S -> nlen S < 2 ^ 62 -> (length S < fuel)%nat ->
+  aruns (parse_log fuel maxd ignore_unknown lrs_init) (view_init S fail) (ADone (Err (ESyntax l c), lr') v') ->
+  loc_spec S l c /\ 1 <= l <= count_lf S + 2 /\ 1 <= c <= nlen S + 1.
+Proof. exact parse_log_error_location_spec. Qed.
+Print Assumptions C08_log_error_location_spec.
+
+(* the exception is real: "p cnf 1 2\n1 0\nc x" reports the missing clause at line 4, column 1 *)
+Example C08_unterminated_comment_line :
+  let S := [112; 32; 99; 110; 102; 32; 49; 32; 50; 10; 49; 32; 48; 10; 99; 32; 120] in
+  exists v', srun (parse_dimacs 100 KCnf 2147483647%Z false lrs_init) (view_init S None)
+             = ADone (Some (Some {| h_vars := 1; h_clauses := 2; h_extra := 0 |}), [(0%Z, [1%Z])],
+                      FErr (ESyntax 4 1), {| l_line := 4; l_start := 17 |}) v'.
+Proof. eexists. vm_compute. reflexivity. Qed.
